@@ -328,6 +328,12 @@ def _guid_case(repo, it, S, spec):
             args.update(over)
             return mk_transcript(it, args["exons"], S[args["strand"]], [(3, 9), (12, 18)], args["frames"], qualifiers=q,
                                  transcript_id="t"), "gene.transcript:TranscriptInterval.__init__"
+        if kind == "cds":
+            args = dict(exons=[(3, 9), (12, 18)], strand="PLUS", frames=[F["ONE"], F["ONE"]])
+            args.update(over)
+            return it.apply(ClassTok("CDSInterval"), [], dict(
+                cds_starts=[b[0] for b in args["exons"]], cds_ends=[b[1] for b in args["exons"]], strand=S[args["strand"]],
+                frames_or_phases=args["frames"], qualifiers=q, protein_id="p"), None, 0), "gene.cds:CDSInterval.__init__"
         if kind == "gene":
             args = dict(exons=[(3, 9), (12, 20)], strand="PLUS")
             args.update(over)
@@ -370,6 +376,7 @@ def _guid_case(repo, it, S, spec):
     changes = {"feature": [dict(blocks=[(3, 9), (12, 21)]), dict(blocks=[(4, 9), (12, 20)]), dict(strand="MINUS")],
                "transcript": [dict(exons=[(3, 9), (12, 21)]), dict(strand="MINUS"), dict(frames=[F["ZERO"], F["ONE"]])],
                "gene": [dict(exons=[(3, 9), (12, 21)]), dict(strand="MINUS")],
+               "cds": [dict(exons=[(3, 9), (12, 21)]), dict(strand="MINUS"), dict(frames=[F["ONE"], F["TWO"]])],
                "collection": [dict(blocks=[(3, 10)]), dict(strand="MINUS"), dict(variant=(21, 22, "T")), dict(variant=(20, 21, "G")),
                               dict(variant=(20, 22, "T"))]}[kind]
     for ch in changes:
@@ -380,6 +387,26 @@ def _guid_case(repo, it, S, spec):
             continue
         if str(o.fields["guid"]) == g0:
             out.append(("content sensitivity", f"{kind}: changing {ch} leaves the guid unchanged ({g0})", qn))
+    if kind == "cds":
+        # the documented alternative input, phases: the same reading frame written as CDSPhase values is the same content
+        P = it.enum("CDSPhase")
+        n += 1
+        k_, o = "ok", None
+        try:
+            o, _ = mk(dict(quals), frames=[P["TWO"], P["TWO"]])
+        except Raised as ex:
+            k_ = ex.exc_name
+        if k_ != "ok" or str(o.fields["guid"]) != g0:
+            out.append(("frames given as phases", f"cds: built from phases [TWO, TWO] (= frames [ONE, ONE]) -> {k_}:"
+                        f"{o.fields['guid'] if o is not None else ''}; the same CDS built from frames has guid {g0}", qn))
+        elif o is not None:
+            n += 1
+            fd, td = repo.fn("gene.cds:CDSInterval.from_dict"), repo.fn("gene.cds:CDSInterval.to_dict")
+            k1, d = run(it, td, [], {}, o)
+            k2, back = run(it, fd, [d], {}, ClassTok("CDSInterval")) if k1 == "ok" else (k1, d)
+            if k2 != "ok" or str(back.fields["guid"]) != g0:
+                out.append(("frames given as phases", f"cds: built from phases, exported and imported again -> {k2}:"
+                            f"{back.fields['guid'] if k2 == 'ok' else back}; the original guid is {g0}", qn))
     if kind == "gene":
         n += 1
         o, _ = mk(dict(quals), swap=True)
@@ -396,7 +423,7 @@ def _guid_case(repo, it, S, spec):
 
 
 def rg_identifiers(ctx):
-    specs = [("feature",), ("transcript",), ("gene",), ("collection",)]
+    specs = [("feature",), ("transcript",), ("gene",), ("collection",), ("cds",)]
     from ..par import pmap
     results = pmap(_runner(ctx.repo, _guid_case), specs, min_items=2)
     _report(ctx, "C08.RG", results, [("util.hashing:digest_object", "guid invariant under insertion order, sensitive to content"),
